@@ -130,6 +130,14 @@ impl CostVal {
             CostVal::Heavy { base, gas_per_unit } => sat(*base as u128 + sat(units as u128 * *gas_per_unit as u128) as u128),
         }
     }
+    /// `DependentCost::resolve_without_base` (0 for a fixed cost)
+    pub fn resolve_without_base(&self, units: u64) -> u64 {
+        match self {
+            CostVal::Fixed(_) => 0,
+            CostVal::Light { units_per_gas, .. } => units / (*units_per_gas).max(1),
+            CostVal::Heavy { gas_per_unit, .. } => units.saturating_mul(*gas_per_unit),
+        }
+    }
     pub fn base(&self) -> u64 {
         match self {
             CostVal::Fixed(x) => *x,
@@ -180,6 +188,8 @@ pub struct World {
     pub params: ConsensusParameters,
     pub schedule: GasSchedule,
     pub contracts: Vec<ContractDef>,
+    /// deployed blobs (id, bytes)
+    pub blobs: Vec<([u8; 32], Vec<u8>)>,
     /// `assets[0]` is the base asset
     pub assets: Vec<AssetId>,
     pub block_height: u32,
@@ -197,6 +207,7 @@ impl World {
             params,
             schedule,
             contracts: vec![],
+            blobs: vec![],
             assets: if assets.is_empty() { vec![base] } else { assets },
             block_height,
             gas_price: 0,
@@ -216,6 +227,11 @@ impl World {
             self.storage.contract_asset_id_balance_insert(&def.id, a, *amt).expect("infallible");
         }
         self.contracts.push(def);
+    }
+    /// store a blob under an arbitrary id
+    pub fn deploy_blob(&mut self, id: [u8; 32], bytes: Vec<u8>) {
+        StorageMutate::<BlobData>::insert(&mut self.storage, &fuel_types::BlobId::from(id), &bytes).expect("infallible");
+        self.blobs.push((id, bytes));
     }
     pub fn deploy_code(&mut self, id: ContractId, code: &[u32]) {
         self.deploy(ContractDef { id, code: words_to_bytes(code), balances: vec![], slots: vec![] });
@@ -1335,6 +1351,7 @@ impl Scenario {
             "contracts": self.world.contracts.iter().map(|c| json!({"id": hex::encode(c.id), "code": hex::encode(&c.code),
                 "balances": c.balances.iter().map(|(a, v)| json!([hex::encode(a), v])).collect::<Vec<_>>(),
                 "slots": c.slots.iter().map(|(k, v)| json!([hex::encode(k), hex::encode(v)])).collect::<Vec<_>>()})).collect::<Vec<_>>(),
+            "blobs": self.world.blobs.iter().map(|(i, b)| json!([hex::encode(i), hex::encode(b)])).collect::<Vec<_>>(),
             "assets": self.world.assets.iter().map(hex::encode).collect::<Vec<_>>(),
             "coins": self.tx.coins.iter().map(|(a, v)| json!([hex::encode(a), v])).collect::<Vec<_>>(),
             "messages": self.tx.messages.iter().map(|(v, d)| json!([v, hex::encode(d)])).collect::<Vec<_>>(),
@@ -1363,6 +1380,7 @@ impl Scenario {
             for s in c["slots"].as_array().cloned().unwrap_or_default() { slots.push((b32(&s[0])?, hx(&s[1])?)); }
             world.deploy(ContractDef { id: ContractId::from(b32(&c["id"])?), code: hx(&c["code"])?, balances, slots });
         }
+        for b in v["blobs"].as_array().cloned().unwrap_or_default() { world.deploy_blob(b32(&b[0])?, hx(&b[1])?); }
         let mut tx = TxSpec::new(hx(&v["script"])?, hx(&v["script_data"])?, v["gas_limit"].as_u64().unwrap_or(0));
         for c in v["coins"].as_array().cloned().unwrap_or_default() { tx.coins.push((AssetId::from(b32(&c[0])?), c[1].as_u64().unwrap_or(0))); }
         for m in v["messages"].as_array().cloned().unwrap_or_default() { tx.messages.push((m[0].as_u64().unwrap_or(0), hx(&m[1])?)); }
